@@ -5,6 +5,10 @@ HERE = os.path.dirname(os.path.dirname(os.path.abspath(__file__)))
 
 # id -> (technique, level text, level note, design section)
 CHECKS = {
+ "C17": ("lockstep of load(file) against load_from_string(decoded text) over the enumerated space documents x 10 encodings x length residues, plus invalid-Unicode variants and an exhaustive 4-byte-prefix sweep",
+         "Every carrier document that holds a string (thorough: also every optional-slot document) with 2-, 3- and 4-byte characters, U+FFFD and a UTF-8 look-alike of Latin-1 text in a string, a block comment and a line comment x UTF-8, UTF-16LE/BE, UTF-32LE/BE each with and without BOM x trailing padding 0..3; three ways of making the UTF-8 file invalid Unicode, which must behave like the Latin-1 reading of the whole file; every 4-byte prefix over the 9 encoding-relevant byte values in front of a body in five encodings (no panic).",
+         "first character of the text is ASCII (format requirement); diagnostics are compared by number and variant because they embed the file name",
+         "DESIGN.md 5/C17"),
  "C15": ("explicit-state exploration of edit histories over {sort_new_items, push kind k, merge module j} with the real A2lFile as state: all action sequences to depth 4/5, deviation-bounded long histories (<= 2 non-default actions at every pair of positions), consecutive-call ladders",
          "(i) every sequence of the 10 actions up to depth 4 (thorough 5) from 4 start files, observed after each step; (ii) histories of 40 (thorough 72 and 300) sort_new_items calls with at most two other actions at every (pair of) position(s); (iii) 64 consecutive calls on files with 1..1000 elements and 40 (200) insert/sort cycles per kind. Observation: order of the module's children in write_to_string. Oracle: the relative order of elements that have a position never changes, after a call every newly placed element sits in the run directly behind the last placed element of its kind, elements without an anchor stay behind all placed ones, no panic or overflow (overflow checks on).",
          "'placed' means the element has a position key (uid != 0); elements of a kind without any placed element keep floating at the end, which the repository's own test asserts as intended; IF_DATA blocks have no identity and are only covered by order stability",
